@@ -76,7 +76,9 @@ func rcRef(s []byte) []byte {
 	return r
 }
 
-func isOk(out Val) bool    { return out.K == 'l' && len(out.L) == 2 && out.L[0].K == 'i' && out.L[0].I == 0 }
+func isOk(out Val) bool {
+	return out.K == 'l' && len(out.L) == 2 && out.L[0].K == 'i' && out.L[0].I == 0
+}
 func isPanic(out Val) bool { return out.K == 'l' && len(out.L) == 1 && out.L[0].I == 2 }
 
 var kRc = register(&Kind{Name: "rc",
